@@ -167,6 +167,45 @@ fn half_life_all(run: &Run, ctx: &mut Ctx, watch: &Watch) {
     }
 }
 
+/// (2b) AR(1)-type paths x_t = phi * x_{t-1} + e_t with every persistence on a grid and three fixed
+/// (deterministic) innovation patterns: totality / range always, value when the profile is a strict
+/// threshold profile
+fn half_life_ar1(run: &Run, ctx: &mut Ctx, watch: &Watch) {
+    let fam = "half_life/ar1";
+    let mut lcg: u64 = 0x2545F4914F6CDD1D;
+    let noise: Vec<f64> = (0..128)
+        .map(|_| {
+            lcg = lcg.wrapping_mul(6364136223846793005).wrapping_add(1442695040888963407);
+            ((lcg >> 33) % 2001) as f64 / 1000.0 - 1.0
+        })
+        .collect();
+    for len in [8usize, 12, 16, 24, 32, 48, 64].into_iter().filter(|l| *l <= run.pick(32, 64)) {
+        for phi_i in 0..=20 {
+            let phi = if phi_i == 20 { 0.99 } else { phi_i as f64 / 20.0 };
+            for pat in 0..3 {
+                let mut x = Vec::with_capacity(len);
+                let mut prev = 0.0;
+                for t in 0..len {
+                    let e = match pat {
+                        0 => if t % 2 == 0 { 1.0 } else { -1.0 },
+                        1 => if (t / 2) % 2 == 0 { 1.0 } else { -1.0 },
+                        _ => noise[t],
+                    };
+                    prev = phi * prev + e;
+                    x.push(Some(prev));
+                }
+                for mp in [1, 2, len / 4, len / 2] {
+                    ctx.states += 1;
+                    ctx.transitions += 1;
+                    ctx.fam(fam).states += 1;
+                    ctx.nontrivial(fam, hash_bytes(format!("{len}/{phi_i}/{pat}/{mp}").as_bytes()));
+                    check_half_life(&x, mp.max(1), fam, ctx, watch, false);
+                }
+            }
+        }
+    }
+}
+
 fn winsor_model(x: &[X], method: u8, p: f64) -> Option<(f64, f64)> {
     let v: Vec<f64> = x.iter().flatten().cloned().collect();
     if v.is_empty() {
@@ -386,8 +425,8 @@ fn main() {
                     last = cur.clone();
                 }
                 if same_for >= 60 || start.elapsed().as_secs() > limit {
-                    let path = format!("{VERIF_ROOT}/replays/{prop}/nontermination.json");
-                    let _ = std::fs::create_dir_all(format!("{VERIF_ROOT}/replays/{prop}"));
+                    let path = format!("{}/replays/{prop}/nontermination.json", verif_root());
+                    let _ = std::fs::create_dir_all(format!("{}/replays/{prop}", verif_root()));
                     let _ = std::fs::write(&path, json!({"property": prop, "entry": "half_life", "case": {"family": "half_life/words", "stalled_on": cur}}).to_string());
                     println!("VIOLATION property={prop} replay={path}");
                     println!("  half_life did not return within the horizon on {cur}");
@@ -421,13 +460,14 @@ fn main() {
     }
     let mut total = Ctx::new();
     half_life_all(&run, &mut total, &watch);
+    half_life_ar1(&run, &mut total, &watch);
     total.merge(explore_tree(&hl, run.threads));
     total.merge(explore_tree(&wz, run.threads));
     total.merge(explore_tree(&sp, run.threads));
     watch.done.store(true, AO::SeqCst);
     total.sample(json!({"op": "half_life", "series": "ramp 0..40", "min_periods": 1, "model": 39}));
     let meta = Meta {
-        rule: "half_life: the ramp family (len 1..=N, every min_periods: realises every (len, L) pair hence every path of the doubling search and of the bisection), square-wave / staircase / alternating profiles, and every word over {null,-1,0,1,2} up to length L with every min_periods (f64 and Option<f64>): no panic, returns (watchdog), result in 1..=len-1 (0 iff len < 2), and when the model's lag profile is a strict threshold profile the result is the first lag not above 0.5 capped at len-1. winsorize: every word of the value alphabet x 3 methods x parameter grids: one output per input, nulls stay null, inside values bit-identical, outside values on the nearer model bound, order preserving. vcorr(Spearman): every pair word over {null,0,1,2,3}^2 with <= 1 null each: equals Pearson of average ranks; invariant under 2x+1, x^3, exp. Non-trivial = distinct words / (len, min_periods) points.".into(),
+        rule: "half_life: the ramp family (len 1..=N, every min_periods: realises every (len, L) pair hence every path of the doubling search and of the bisection), square-wave / staircase / alternating profiles, AR(1)-type paths with every persistence 0, 0.05, .., 0.95, 0.99 under three fixed innovation patterns, and every word over {null,-1,0,1,2} up to length L with every min_periods (f64 and Option<f64>): no panic, returns (watchdog), result in 1..=len-1 (0 iff len < 2), and when the model's lag profile is a strict threshold profile the result is the first lag not above 0.5 capped at len-1. winsorize: every word of the value alphabet x 3 methods x parameter grids: one output per input, nulls stay null, inside values bit-identical, outside values on the nearer model bound, order preserving. vcorr(Spearman): every pair word over {null,0,1,2,3}^2 with <= 1 null each: equals Pearson of average ranks; invariant under 2x+1, x^3, exp. Non-trivial = distinct words / (len, min_periods) points.".into(),
         bounds: json!({"ramp_len": run.pick(48, 96), "profile_len": run.pick(24, 56), "half_life_words_L": hl.max_len, "winsorize": {"alphabet": json_word(&wz.alpha), "L": wz.max_len, "q": [0, 0.01, 0.1, 0.25, 0.5], "k": [0, 0.5, 1, 3]}, "spearman_L": sp.max_len}),
         assumptions: vec!["profiles within 1e-6 of the 0.5 threshold are judged for totality and range only".into(), "finite exact inputs (DESIGN 5.2)".into()],
         exhaustive: true,
